@@ -361,11 +361,17 @@ func uniqFilter(a []any) (result []any) {
 	return
 }
 
-func eqItems(a, b any) bool {
+func eqItems(a, b any) (eq bool) {
 	if a == nil || b == nil {
 		return a == b
 	}
 	if reflect.TypeOf(a).Comparable() && reflect.TypeOf(b).Comparable() {
+		// a comparable type (an array or struct of interfaces) may still hold values that are not
+		defer func() {
+			if recover() != nil {
+				eq = reflect.DeepEqual(a, b)
+			}
+		}()
 		return a == b
 	}
 	return reflect.DeepEqual(a, b)
